@@ -157,7 +157,7 @@ func (f *frame) specExpr(e SExpr, env *specEnv) sval {
 		} else {
 			delete(env.names, name)
 		}
-		return sval{e: &Quant{Forall: !x.Exists, Vars: []*Var{v}, Body: body}, typ: types.Typ[types.Bool]}
+		return sval{e: &Quant{Forall: !x.Exists, Vars: []*Var{v}, Body: body, Pats: autoPatterns(body, v.Name)}, typ: types.Typ[types.Bool]}
 	case *SCall:
 		return f.specCall(x, env)
 	case *SIndex:
@@ -718,33 +718,59 @@ func (f *frame) specCall(x *SCall, env *specEnv) sval {
 		return sval{e: th.ALe(top, p), typ: boolT}
 	}
 	// spec-library function
-	if sig, ok := t.eng.specFuncs[x.Fun]; ok {
-		if len(sig.Args) != len(x.Args) {
-			specFail("%s expects %d arguments", x.Fun, len(sig.Args))
-		}
+	thKey := "|int"
+	if th.bv {
+		thKey = "|bv"
+	}
+	if sig, ok := t.eng.specFuncs[x.Fun+thKey]; ok {
 		var args []Expr
+		j := 0 // index into the signature; a sequence argument fills two slots (memory, base address)
 		for i := range x.Args {
+			if j >= len(sig.Args) {
+				specFail("%s: too many arguments", x.Fun)
+			}
 			if l := asLit(x.Args[i]); l != nil {
-				if sig.Args[i].IsBV() {
-					args = append(args, BVLit(l, sig.Args[i].BVWidth()))
+				if sig.Args[j].IsBV() {
+					args = append(args, BVLit(l, sig.Args[j].BVWidth()))
 				} else {
 					args = append(args, BigLit(l))
 				}
+				j++
 				continue
 			}
 			v := arg(i)
-			var ve Expr = v.e
-			if sig.Args[i].IsArray() && v.typ != nil {
-				// passing a slice / array where an array sort is expected: pass the memory
-				if _, isSl := v.typ.Underlying().(*types.Slice); isSl {
-					mem, _, _ := f.specElems(v, env)
-					ve = mem
+			if sig.Args[j].IsArray() && v.typ != nil {
+				isSeq := false
+				switch u := v.typ.Underlying().(type) {
+				case *types.Slice:
+					isSeq = true
+				case *types.Pointer:
+					_, isSeq = u.Elem().Underlying().(*types.Array)
+				}
+				if isSeq {
+					mem, ptr, _ := f.specElems(v, env)
+					args = append(args, mem, ptr)
+					j += 2
+					continue
 				}
 			}
-			if ve.Sort() != sig.Args[i] {
-				specFail("%s: argument %d has sort %s, want %s", x.Fun, i, ve.Sort(), sig.Args[i])
+			ve := v.e
+			if th.bv && ve.Sort().IsBV() && sig.Args[j].IsBV() && ve.Sort() != sig.Args[j] {
+				w := sig.Args[j].BVWidth()
+				if ve.Sort().BVWidth() < w {
+					ve = f.extend(v, w)
+				} else {
+					ve = mk(fmt.Sprintf("(_ extract %d 0)", w-1), BV(w), ve)
+				}
+			}
+			if ve.Sort() != sig.Args[j] {
+				specFail("%s: argument %d has sort %s, want %s", x.Fun, i, ve.Sort(), sig.Args[j])
 			}
 			args = append(args, ve)
+			j++
+		}
+		if j != len(sig.Args) {
+			specFail("%s: wrong number of arguments", x.Fun)
 		}
 		t.usedSpecFuncs[x.Fun] = true
 		return sval{e: mk(x.Fun, sig.Ret, args...), typ: sortGoType(sig.Ret)}
@@ -786,4 +812,100 @@ func (f *frame) leLoad(mem Expr, a Expr, n int) Expr {
 		e = IAdd(e, IMul(BigLit(pow2(8*i)), b))
 	}
 	return e
+}
+
+// autoPatterns: E-matching triggers for a quantified contract clause: every
+// application of a spec function or array read that mentions the bound variable
+// (each one an alternative single-term pattern). Terms that nest another
+// candidate are skipped in favour of the inner one only when they are not
+// themselves function applications.
+func autoPatterns(body Expr, bound string) [][]Expr {
+	var out [][]Expr
+	seen := map[string]bool{}
+	var mentions func(e Expr) bool
+	mentions = func(e Expr) bool {
+		switch x := e.(type) {
+		case *Var:
+			return x.Name == bound
+		case *App:
+			for _, a := range x.Args {
+				if mentions(a) {
+					return true
+				}
+			}
+		}
+		return false
+	}
+	var hasQuantOrIte func(e Expr) bool
+	hasQuantOrIte = func(e Expr) bool {
+		switch x := e.(type) {
+		case *Quant:
+			return true
+		case *App:
+			if x.Op == "ite" || x.Op == "and" || x.Op == "or" || x.Op == "not" || x.Op == "=>" || x.Op == "=" || x.Op == "<" || x.Op == "<=" || x.Op == ">" || x.Op == ">=" {
+				return true
+			}
+			for _, a := range x.Args {
+				if hasQuantOrIte(a) {
+					return true
+				}
+			}
+		}
+		return false
+	}
+	var walk func(e Expr)
+	walk = func(e Expr) {
+		switch x := e.(type) {
+		case *App:
+			if x.Op == "select" {
+				// only bare-variable indices: arithmetic inside a trigger causes matching loops
+				if v, ok := x.Args[1].(*Var); !ok || v.Name != bound {
+					for _, a := range x.Args {
+						walk(a)
+					}
+					return
+				}
+			}
+			if (x.Op == "select" || strings.Contains(x.Op, ".")) && mentions(x) && !hasQuantOrIte(x) {
+				k := Print(RenameCells(x, func(c *Cell) Expr { return &Var{"<" + c.Name + ">", c.S} }))
+				if !seen[k] {
+					seen[k] = true
+					out = append(out, []Expr{x})
+				}
+			}
+			for _, a := range x.Args {
+				walk(a)
+			}
+		case *Quant:
+			walk(x.Body)
+		}
+	}
+	walk(body)
+	if len(out) > 6 {
+		out = out[:6]
+	}
+	return out
+}
+
+// specUpdate evaluates an `updates X[i] := v` clause: memory cell, address, value.
+func (f *frame) specUpdate(u UpdateClause, env *specEnv) (*Cell, Expr, Expr) {
+	t := f.t
+	th := t.th
+	ix, ok := u.Target.(*SIndex)
+	if !ok {
+		specFail("updates target must be X[i]")
+	}
+	base := f.specExpr(ix.X, env)
+	_, ptr, elem := f.specElems(base, env)
+	idx := f.specIndexVal(ix.I, env)
+	v := f.specExpr(u.Val, env)
+	ve := v.e
+	want := th.SortOf(elem)
+	if l := asLit(u.Val); l != nil {
+		ve = th.IntConst(l, elem)
+	}
+	if ve.Sort() != want {
+		specFail("updates value has sort %s, want %s", ve.Sort(), want)
+	}
+	return t.mem(elem), th.AAdd(ptr, idx), ve
 }
